@@ -55,6 +55,10 @@ def pcOf? : String → Option PC
   | "invoke" => some .invoke | "post" => some .post | "idleLoop" => some .idleLoop
   | _ => none
 
+def outcomeOf? (j : Json) : Option Outcome := do
+  some { done := ← jBool? (← jField? j "done"), failed := ← jBool? (← jField? j "failed"),
+         errDelay := ← jInt? (← jField? j "errDelay"), yields := ← jBool? (← jField? j "yields") }
+
 def handle : DrvHandler := fun op args =>
   match op, args with
   | "C09.cycle", [j] => do
@@ -108,10 +112,20 @@ def handle : DrvHandler := fun op args =>
                         idleReset := ← jInt? (← jField? ej "idleReset") }
       let l : TLoc := { pc := ← (jStr? (← jField? lj "pc") >>= pcOf?), started := ← jInt? (← jField? lj "started"),
                         done := ← jBool? (← jField? lj "done"), failed := ← jBool? (← jField? lj "failed"),
-                        errDelay := ← jInt? (← jField? lj "errDelay") }
+                        errDelay := ← jInt? (← jField? lj "errDelay"), runs := 0 }
       let k ← jNat? (← jField? j "k")
-      let o : Outcome := { done := true, failed := false, errDelay := 0 }
-      some (ok (Json.mkObj [("spinning", .bool (spinning c e l)), ("settles", .bool (settles c e o k l))]))
+      let o ← outcomeOf? (← jField? j "outcome")
+      some (ok (Json.mkObj [("spinning", .bool (spinning c e l)), ("good", .bool o.good),
+                            ("settles", .bool (settles c e (fun _ => o) k l))]))
+  | "C09.daemon", [j] => do
+      let ej ← jField? j "env"
+      let e : TEnv := { now := ← jInt? (← jField? ej "now"), stop := ← jBool? (← jField? ej "stop"),
+                        idleReset := ← jInt? (← jField? ej "idleReset") }
+      let idl ← jOpt? jInt? (← jField? j "initialDelay")
+      let k ← jNat? (← jField? j "k")
+      let o ← outcomeOf? (← jField? j "outcome")
+      let l : DLoc := { pc := .head, done := false, delay := 0, runs := 0 }
+      some (ok (Json.mkObj [("good", .bool o.good), ("settles", .bool (dsettles idl e (fun _ => o) k l))]))
   | "C09.sweep", [j] => do
       let ds ← jArr? j
       let outs ← ds.mapM (fun d => do
